@@ -155,3 +155,146 @@ Eval vm_compute in scatter_2d true fr_real [1].
 Eval vm_compute in scatter_3d false fr_real [1; 2; 1].
 Eval vm_compute in
   px_scatter label_eqb [(1, Synthetic); (2, Real); (3, Synthetic); (4, Real)].
+
+(* ================================================================== *)
+(* 1-d plots: dist_1d, compare_1d, _generate_1d_plot                   *)
+(* (plotly.figure_factory.create_distplot with show_hist=False,        *)
+(* show_rug=False: ONE density curve per group, in the order given)    *)
+(* ================================================================== *)
+(* what a caller hands over as 1-d data *)
+Inductive data1d :=
+| D1Array (vs : list Z)                        (* numpy array / list of numbers *)
+| D1Series (nm : option name) (vs : list Z)    (* pandas Series: its `name` (None or a column name) and its values *)
+| D1Frame (f : frame).                         (* pandas DataFrame: has a default title, is NOT array-like for the density plot *)
+
+Definition ulabel := option (list nat).        (* the `label` argument of dist_1d: None or a string (character codes) *)
+Inductive glabel := GFixed (l : label) | GUser (u : ulabel).   (* a group label: 'Real' / 'Synthetic', or the user's *)
+Inductive colour := CDark | CGreen | CDefault (i : nat).      (* PlotConfig.DATACEBO_DARK / DATACEBO_GREEN / plotly's i-th default colour *)
+
+Definition truthy_str (s : list nat) : bool := match s with [] => false | _ :: _ => true end.
+Definition truthy_opt_str (o : option (list nat)) : bool := match o with Some s => truthy_str s | None => false end.
+Definition truthy_glabel (g : glabel) : bool := match g with GFixed _ => true | GUser u => truthy_opt_str u end.
+
+Fixpoint str_eqb (a b : list nat) : bool :=
+  match a, b with
+  | [], [] => true
+  | x :: a', y :: b' => Nat.eqb x y && str_eqb a' b'
+  | _, _ => false
+  end.
+Definition glabel_eqb (a b : glabel) : bool :=
+  match a, b with
+  | GFixed x, GFixed y => label_eqb x y
+  | GUser None, GUser None => true
+  | GUser (Some s), GUser (Some t) => str_eqb s t
+  | _, _ => false
+  end.
+
+(* one curve of the figure: its legend name, its colour, the values whose density it shows, and the index of the group
+   over whose value range (x grid) it is drawn *)
+Record trace1d := mkTrace1d { t_label : glabel; t_colour : colour; t_xsrc : nat; t_values : list Z }.
+(* the figure: title (of type T: Model.Plot does not fix the representation of strings), legend shown or not, the curves in order *)
+Record plot1d (T : Type) := mkPlot1d { p_title : T; p_legend : bool; p_traces : list trace1d }.
+Arguments mkPlot1d {T}. Arguments p_title {T}. Arguments p_legend {T}. Arguments p_traces {T}.
+
+Inductive perr1d :=
+| Err1Index      (* IndexError of `data.columns[0]` in the default-title code (a frame without columns), or of `labels[0]` *)
+| Err1Plotly.    (* raised inside create_distplot: a group that is not a non-empty 1-d array-like (a DataFrame, an empty
+                    array), no group at all, or a different number of groups and labels *)
+
+(* the values create_distplot draws for one group; a DataFrame is refused (validate_distplot accepts list / ndarray / Series
+   only; in a later position min(frame) * 1.0 / gaussian_kde(frame) fail), an empty group has no min / max *)
+Definition values1d (d : data1d) : option (list Z) :=
+  match d with
+  | D1Array [] | D1Series _ [] => None
+  | D1Array vs | D1Series _ vs => Some vs
+  | D1Frame _ => None
+  end.
+Fixpoint all_values1d (ds : list data1d) : option (list (list Z)) :=
+  match ds with
+  | [] => Some []
+  | d :: r => match values1d d, all_values1d r with Some v, Some vr => Some (v :: vr) | _, _ => None end
+  end.
+
+(* colors[i % len(colors)], plotly's own palette when the list is empty (falsy) *)
+Definition colour_at (colors : list colour) (i : nat) : colour :=
+  match colors with [] => CDefault (i mod 10) | c :: _ => nth (i mod length colors) colors c end.
+
+Fixpoint distplot_from (i : nat) (labels : list glabel) (colors : list colour) (vss : list (list Z)) : list trace1d :=
+  match labels, vss with
+  | l :: lr, vs :: vr => mkTrace1d l (colour_at colors i) i vs :: distplot_from (S i) lr colors vr
+  | _, _ => []
+  end.
+
+(* ff.create_distplot(hist_data, group_labels, show_hist=False, show_rug=False, colors=colors): curve i = group i under
+   label i in colour i, drawn over the range of group i *)
+Definition create_distplot (data : list data1d) (labels : list glabel) (colors : list colour) : option (list trace1d) :=
+  match data, all_values1d data with
+  | _ :: _, Some vss => if Nat.eqb (length data) (length labels) then Some (distplot_from 0 labels colors vss) else None
+  | _, _ => None
+  end.
+
+(* `for i, name in enumerate(labels): fig.update_traces(x=fig.data[i].x, selector={'name': name}, ...)`:
+   every curve called `name` is re-drawn over the x grid curve i has at that moment *)
+Definition set_xsrc (x : nat) (t : trace1d) : trace1d := mkTrace1d (t_label t) (t_colour t) x (t_values t).
+Definition update_x_by_name (fig : list trace1d) (x : nat) (nm : glabel) : list trace1d :=
+  map (fun t => if glabel_eqb (t_label t) nm then set_xsrc x t else t) fig.
+Fixpoint realign_from (i : nat) (labels : list glabel) (fig : list trace1d) : list trace1d :=
+  match labels with
+  | [] => fig
+  | nm :: r => match nth_error fig i with
+               | Some t => realign_from (S i) r (update_x_by_name fig (t_xsrc t) nm)
+               | None => fig
+               end
+  end.
+
+(* _generate_1d_plot(data, title, labels, colors) *)
+Definition generate_1d {T : Type} (data : list data1d) (title : T) (labels : list glabel) (colors : list colour)
+  : perr1d + plot1d T :=
+  match create_distplot data labels colors with
+  | None => inl Err1Plotly
+  | Some fig =>
+      match labels with
+      | l0 :: _ => inr (mkPlot1d title (truthy_glabel l0) (realign_from 0 labels fig))      (* showlegend=True if labels[0] else False *)
+      | [] => inl Err1Index
+      end
+  end.
+
+(* the title of a 1-d plot: the caller's, or the default text with the names formatted into it (the TEXT is not modelled) *)
+Inductive title1d := TGiven (t : option (list nat)) | TDefault (cols : list name).
+
+(* `if not title: title = '...'; if isinstance(data, pd.DataFrame): += data.columns[0] elif isinstance(data, pd.Series) and
+   data.name: += data.name` *)
+Definition title_for (title : option (list nat)) (d : data1d) : perr1d + title1d :=
+  if truthy_opt_str title then inr (TGiven title)
+  else match d with
+       | D1Frame f => match fcols f with c :: _ => inr (TDefault [c]) | [] => inl Err1Index end
+       | D1Series (Some n) _ => inr (TDefault [n])
+       | _ => inr (TDefault [])
+       end.
+
+(* the colour each label is drawn in, in the 1-d plots and in the colour maps of the scatter plots *)
+Definition colour_of_label (l : label) : colour := match l with Real => CDark | Synthetic => CGreen end.
+Definition scatter_labels : list label := [Real].                 (* the labels scatter_2d/3d tag the rows with *)
+Definition compare_labels : list label := [Real; Synthetic].      (* compare_2d/3d, compare_1d: in this order *)
+
+Definition dist_1d (title : option (list nat)) (label : ulabel) (data : data1d) : perr1d + plot1d title1d :=
+  match title_for title data with
+  | inl e => inl e
+  | inr t => generate_1d [data] t [GUser label] [CDark]
+  end.
+
+Definition compare_1d (title : option (list nat)) (real synth : data1d) : perr1d + plot1d title1d :=
+  match title_for title real with
+  | inl e => inl e
+  | inr t => generate_1d [real; synth] t (map GFixed compare_labels) (map colour_of_label compare_labels)
+  end.
+
+Definition s1_real : data1d := D1Series (Some 1) [3; 1; 4]%Z.
+Definition a1_synth : data1d := D1Array [2; 7]%Z.
+Eval vm_compute in compare_1d None s1_real a1_synth.
+Eval vm_compute in compare_1d (Some [84]) a1_synth s1_real.
+Eval vm_compute in dist_1d None (Some [76]) s1_real.
+Eval vm_compute in dist_1d None None (D1Frame fr_real).
+Eval vm_compute in compare_1d None s1_real (D1Frame fr_real).
+(* the private helper with a repeated label: both curves end up over the x grid of the FIRST group *)
+Eval vm_compute in generate_1d [s1_real; a1_synth] tt [GFixed Real; GFixed Real] [].
